@@ -41,7 +41,8 @@ def gen_ops(rng, kind, init, n):
     def pick_name(own_of=None):
         r = rng.random()
         if r < 0.25: return None
-        if r < 0.60: return fr("n")
+        if r < 0.55: return fr("n")
+        if r < 0.62 and syms: return rng.choice(syms)          # a name that is another object's symbol (or reads as prefix + symbol): names and symbols are separate registries
         if r < 0.80 and names: return rng.choice(names)
         return rng.choice(names) if names else fr("n")
     def pick_sym(spaced_ok=True):
@@ -187,6 +188,8 @@ def main():
                 changed = d["byn"] or d["bys"] or d["nm"] or d["sy"]
                 if rec.get("dups"):
                     c.violation(f"twoclaim:{kind}", f"after {op} the name/symbol {rec['dups']} is claimed by two different objects", {"kind": kind, "ops": ops[:i + 1]})
+                if rec.get("lookup_disagrees"):
+                    c.violation(f"name-lookup-disagrees:{kind}", f"after {op} a lookup of the object by a name it reports returns something else: {rec['lookup_disagrees']}", {"kind": kind, "ops": ops[:i + 1]})
                 if rec.get("unreported"):
                     c.violation(f"bound-not-reported:{kind}", f"after {op} {rec['unreported']} is bound to an object that does not report it", {"kind": kind, "ops": ops[:i + 1]})
                 if op[0] in ("snap", "load") and (changed or "err" in rec):
